@@ -182,6 +182,62 @@ def write_replay(pid, kind, payload):
     return os.path.relpath(path, ROOT)
 
 
+def directed_search(pid, mod, divergences, known, per_desc=24, max_descs=48):
+    """A correspondence broke: re-run the scenarios on which model and implementation disagreed under many "window" schedules
+    (one thread suspended at a boundary point until all others are blocked, see dsched.core.Chooser 'hold') and under
+    boundary-biased ones, looking for an execution on which a property monitor fires.  Search aid only."""
+    if not divergences:
+        return None
+    import random as _r
+    rng = _r.Random(12345)
+    picked = divergences if len(divergences) <= max_descs else rng.sample(divergences, max_descs)
+    descs = []
+    for (_v, d, _sch) in picked:
+        if not isinstance(d, dict):
+            continue
+        for k in range(per_desc):
+            x = dict(d)
+            x.pop("replay", None)
+            x["seed"] = rng.randrange(1 << 30)
+            if k % 4 == 3:
+                x.update(mode="bnd", p_switch=0.5, trace_lines=True)
+            else:
+                x.update(mode="hold", p_switch=[0.0, 0.02, 0.1][k % 3], trace_lines=True)
+            x["idx"] = 1
+            descs.append(x)
+    for r in run_scenarios("props.%s" % pid, descs, budget_s=120):
+        for h in r.get("hits", []):
+            if match_known(pid, h["sig"], known) is None:
+                return {"sig": h["sig"], "detail": h.get("detail"), "desc": r["desc"], "schedule": r.get("schedule")}
+    # systematic placement: for a few of the smallest diverging scenarios, suspend each thread at each of its hot yields in turn
+    # (one suspension per run, everything else sequential) - the exhaustive "where does the racing step land" enumeration
+    from dsched import core as _core
+    small = sorted((d for (_v, d, _s) in divergences if isinstance(d, dict)), key=lambda d: len(json.dumps(d, default=str)))
+    step = max(1, len(small) // 8)
+    descs = []
+    for d in small[::step][:8]:
+        x = dict(d)
+        x.pop("replay", None)
+        x.update(mode="holdat", p_switch=0.0, trace_lines=True, hold_at=None, idx=1)
+        try:
+            mod.run_one(x)
+            counts = dict(_core.Chooser.LAST.hot_count)
+        except Exception:
+            continue
+        pts = [(t, k) for t, n in sorted(counts.items()) for k in range(1, n + 1)]
+        if len(pts) > 600:
+            pts = rng.sample(pts, 600)
+        for (t, k) in pts:
+            y = dict(x)
+            y["hold_at"] = [t, k]
+            descs.append(y)
+    for r in run_scenarios("props.%s" % pid, descs, budget_s=240):
+        for h in r.get("hits", []):
+            if match_known(pid, h["sig"], known) is None:
+                return {"sig": h["sig"], "detail": h.get("detail"), "desc": r["desc"], "schedule": r.get("schedule")}
+    return None
+
+
 # --------------------------------------------------------------------------------------------- main check
 
 def check(pid, tier, seed):
@@ -207,7 +263,8 @@ def check(pid, tier, seed):
     # 2. build
     targets = list(mod.LEAN_MODULES) + ["validate"]
     ok, out, dt = lake_build(targets)
-    build_tail = out[-3000:]
+    errs = [ln for ln in out.splitlines() if ln.startswith("error") or "error:" in ln or ln.startswith("✖")]
+    build_tail = ("\n".join(errs)[:2500] + "\n...\n" + out[-500:]) if errs else out[-3000:]
     theorems = list(mod.THEOREMS)
     discharged = []
     if not ok:
@@ -300,8 +357,8 @@ def check(pid, tier, seed):
         exit_code = 1
     elif broken:
         # extended search for a concrete failing input
-        found = None
-        if hasattr(mod, "extended_search"):
+        found = directed_search(pid, mod, divergences, known)
+        if found is None and hasattr(mod, "extended_search"):
             found = mod.extended_search(seed, tier, broken)
             if found is not None and match_known(pid, found["sig"], known) is not None:
                 found = None
@@ -344,6 +401,7 @@ def check(pid, tier, seed):
             "samples": samples[:3] if samples else [{"note": "no scenario ran"}],
             "stats": stats,
             "monitor_hits": len(hits),
+            "hit_signatures": {sg: sum(1 for h, _d, _s in hits if h["sig"] == sg) for sg in sorted(set(h["sig"] for h, _d, _s in hits))},
             "known_finding_hits": len(hits) - len(violations),
             "harness_errors": len(errors),
             "notes": notes,
